@@ -39,6 +39,14 @@ CHECKS = {
          "RFC 5389 s15 attribute codecs written in TLA+; TLC enumerates the case structure and checks the reference round trip; each value is driven three ways through the real setters/getters and a TLA+ trace specification checks wire bytes = reference encoding, independent decode = value, library round trip = value, reference-encoded bytes read correctly",
          "Three equalities with an independent executable RFC codec for every enumerated case and for the complete numeric sub-domains (all 65536 ports, all codes 300..699, every text length up to the limits, lists of 0..64 types) under random transaction IDs and addresses.",
          "Trusted: StunAttrs as the reading of RFC 5389 s15 / RFC 5780, TLC, the harness."),
+ "C07": (True, "DESIGN.md §4 C07",
+         "TLC enumerates the complete scenario product (getter/checker x value length x position x capacity x fill); each scenario is driven as a group of twin messages on the real getters; a TLA+ trace specification checks no panic, snapshot unchanged, identical outcome within the group, and (I layer) outcome = RFC reference decoding",
+         "Totality, locality (twin groups that differ only in what the outcome must not depend on) and side-effect freedom judged by TLC on every scenario of the product, for 14 getters/checkers.",
+         "Trusted: 3 random twins per scenario stand for 'all surroundings'; TLC; harness. Memory beyond the value is observed through capacity-exact buffers (panic) and poisoned spare bytes (outcome change)."),
+ "C09": (True, "DESIGN.md §4 C09",
+         "RFC limits and default-reason table in TLA+ (StunAttrs); TLC enumerates setter x preceding content; the driver sweeps arguments on both sides of every limit; a TLA+ trace specification checks err iff ShouldReject, failing setter leaves Raw/Length/Attributes unchanged, Build stops at the first failing setter",
+         "Requirement monitor err <=> ShouldReject and atomic failure, evaluated by TLC on every recorded setter call and Build.",
+         "Trusted: the limits/table as transcribed from the RFCs; TLC; harness."),
 }
 
 ALL = ["C%02d" % i for i in range(1, 21)]
